@@ -176,8 +176,11 @@ struct ReaderCfg { int n; bool delta[3]; };
 //                      was created from a meter whose MeterProvider is gone
 //   small_dud: the double up-down counter uses two values (+0.5, -0.25) instead of three
 enum ReaderSet { ALL14 = 0, REP8 = 1, REP6 = 2, TWO5 = 3, FEW3 = 4, FILT5 = 5, NREADERSETS = 6 };
-enum Feature { F_NONE = 0, F_FILTER = 1, F_LATE = 2, F_METERS = 3, F_DESTROY = 4, F_ORPHAN = 5 };
-const char *const kFeatName[6] = {"", "filter ", "late-reader ", "two-meters ", "destroy ", "orphan "};
+//            F_TWIN    the same meter also has an instrument of the same kind, name and unit but of the OTHER value type
+//                      (uint64 <-> double), created first and given one measurement: two instruments, two streams;
+//                      the twin's stream is recognised by its value type and left alone
+enum Feature { F_NONE = 0, F_FILTER = 1, F_LATE = 2, F_METERS = 3, F_DESTROY = 4, F_ORPHAN = 5, F_TWIN = 6 };
+const char *const kFeatName[7] = {"", "filter ", "late-reader ", "two-meters ", "destroy ", "orphan ", "twin "};
 //   kinds / views: bit masks of the instrument kinds and view counts (0, 1, 2) the part runs over
 struct Part { int depth; int n_attr; bool one_value; ReaderSet readers; Feature feat; bool small_dud; unsigned kinds; unsigned views; };
 constexpr unsigned ALLK = 0xf, ALLV = 0x7;
@@ -209,10 +212,11 @@ void setup(vf::Options &o) {
     g_parts = {{5, 3, false, REP8, F_NONE, false, ALLK, ALLV}, {5, 2, true, ALL14, F_NONE, false, ALLK, ALLV}, {6, 2, true, REP8, F_NONE, false, ALLK, ALLV},
                {7, 2, true, TWO5, F_NONE, false, ALLK, ALLV},
                {6, 2, true, FILT5, F_FILTER, false, TWOK, ALLV}, {6, 2, true, FEW3, F_LATE, false, TWOK, ALLV}, {6, 2, true, FEW3, F_METERS, false, TWOK, ALLV},
-               {6, 2, true, FEW3, F_DESTROY, false, TWOK, ALLV}, {1, 2, true, FEW3, F_ORPHAN, false, ALLK, ALLV}};
+               {6, 2, true, FEW3, F_DESTROY, false, TWOK, ALLV}, {1, 2, true, FEW3, F_ORPHAN, false, ALLK, ALLV}, {5, 2, true, FEW3, F_TWIN, false, ALLK, 0x1}};
   else
     g_parts = {{5, 2, false, REP6, F_NONE, true, ALLK, ALLV}, {4, 2, true, FILT5, F_FILTER, false, TWOK, ALLV}, {5, 2, true, FEW3, F_LATE, false, TWOK, 0x1},
-               {4, 2, true, FEW3, F_METERS, false, TWOK, 0x5}, {5, 2, true, FEW3, F_DESTROY, false, TWOK, 0x5}, {1, 2, true, FEW3, F_ORPHAN, false, ALLK, ALLV}};
+               {4, 2, true, FEW3, F_METERS, false, TWOK, 0x5}, {5, 2, true, FEW3, F_DESTROY, false, TWOK, 0x5}, {1, 2, true, FEW3, F_ORPHAN, false, ALLK, ALLV},
+               {3, 2, true, FEW3, F_TWIN, false, ALLK, 0x1}};
   std::string d = o.get("depth");
   if (!d.empty())
     g_parts = {{atoi(d.c_str()), atoi(o.get("nattr", "3").c_str()), o.get("onevalue") == "1", (ReaderSet)atoi(o.get("readers", "1").c_str()),
@@ -399,6 +403,14 @@ void run(vf::Ctx &c) {
     }
     handles.push_back(std::move(h));
   };
+  Handle twin;
+  const sdkm::InstrumentValueType main_vt = (kind == K_U64 || kind == K_UPDOWN) ? sdkm::InstrumentValueType::kLong : sdkm::InstrumentValueType::kDouble;
+  if (P.feat == F_TWIN) {
+    twin.meter = 0;
+    twin.serial = -1;
+    twin.create(*meter, kind == K_U64 ? K_DBL : kind == K_DBL ? K_U64 : kind == K_UPDOWN ? K_DBL_UPDOWN : K_UPDOWN);
+    twin.add_units(1, 0, false);
+  }
   create(0);
   if (P.feat == F_METERS) create(1);
 
@@ -545,6 +557,7 @@ void run(vf::Ctx &c) {
           const std::string scope = sm.scope_ ? sm.scope_->GetName() : std::string("<null scope>");
           for (auto &md : sm.metric_data_) {
             int s = -1;
+            if (P.feat == F_TWIN && md.instrument_descriptor.value_type_ != main_vt) continue;  // the twin instrument's own stream
             for (int i = 0; i < S; ++i) if (md.instrument_descriptor.name_ == streams[i].name && scope == streams[i].scope) s = i;
             if (s < 0) { problem("C06:unknown-stream", "a stream named '" + md.instrument_descriptor.name_ + "' of scope '" + scope + "' was collected"); continue; }
             if (got[s].present) { problem("C06:duplicate-stream", "stream '" + streams[s].name + "' was handed to the reader twice in one collection"); continue; }
